@@ -1,7 +1,7 @@
 (* C09 — Skip-schemas mode expands all but schemas and keeps their $refs valid. *)
 From Coq Require Import List String Bool.
 From Spec Require Import Base.Json Base.Url Codec.Types Codec.Gen_Tables Codec.Codec Codec.CodecFacts Expand.Expand Expand.ExpandFacts
-  Expand.ExpandSim Expand.ExpandSimCheck Expand.ExpandCycle Expand.ExpandExample.
+  Expand.ExpandSim Expand.ExpandSimCheck Expand.ExpandCycle Expand.ExpandExample Expand.ExpandElem Expand.ExpandChain Expand.ExpandSpecSim.
 Import ListNotations.
 Local Open Scope string_scope.
 
@@ -67,3 +67,62 @@ Example C09_example_runs :
   exists s', exp gen_env ex_docs "/" (mkOpts true false false) ex_root_url ex_live 3 ex_s0 [] None ex_other_url ex_c
   = Done (s', JObj [("allOf", JArr [JObj [("$ref", JStr "#/definitions/a")]; JObj [("$ref", JStr "#/definitions/e~0f")]; JObj [("type", JStr "string")]])]).
 Proof. vm_compute. eexists. reflexivity. Qed.
+
+(* ---------- the whole of ExpandSpec in skip mode (Expand/ExpandSpecSim.v) ---------- *)
+(* "In skip-schemas mode the result denotes the same trees as the input: every parameter, response and path-item reference
+   is replaced by its target and every schema reference is kept as a reference that resolves from the root document's
+   location to what it resolved to before; definitions are left untouched."  On a checked graph, from every consistent
+   state, for every fuel: when ExpandSpec returns, the document is [spec_rel_skip]-related to the input - the definitions
+   section is the input's, every shared parameter, shared response and path item is the END of its chain (so carries no
+   `$ref`), the parameters and responses of its operations likewise, each schema below them replaced by one that, read at
+   the root location, is bisimilar to the input's; names and order kept, vendor extensions untouched.  (The schema walk
+   leaves the state exactly as it was in this mode: exp_skip_state.) *)
+Local Open Scope string_scope.
+Theorem C09_expand_spec_skip_preserves_meaning : forall E docs cwd OP ctx_base rid nodes enodes bad0 ranks live,
+  (forall lu ld, live = Some (lu, ld) -> doc_at docs cwd lu = Some ld) ->
+  o_cont OP = false -> o_skip OP = true ->
+  check_nodes E docs cwd OP ctx_base rid nodes = true -> check_enodes E docs cwd enodes nodes = true ->
+  check_chains E docs cwd nodes enodes bad0 ranks = true -> check_pis enodes = true ->
+  forall d root_url m s s' out,
+  check_root ctx_base nodes enodes bad0 m = true ->
+  Inv2 E docs cwd rid (GN nodes) bad0 s -> Coh cwd (Some root_url) ctx_base ->
+  expand_spec E docs cwd OP ctx_base live d root_url (JObj m) s = Done (s', out) ->
+  Inv2 E docs cwd rid (GN nodes) bad0 s' /\
+  spec_rel_skip E docs cwd ctx_base (fun b t t' => bisimilar E docs cwd b t ctx_base t') m out.
+Proof.
+  intros E docs cwd OP ctx_base rid nodes enodes bad0 ranks live Hlive Hstrict Hskip Hck Hcke Hckc Hckp d root_url m s s' out Hroot Hs Hcoh H.
+  exact (checked_spec_sim_skip E docs cwd OP ctx_base rid nodes enodes bad0 ranks live Hlive Hstrict Hck Hcke Hckc Hckp d (S d) root_url m s s' out Hskip Hroot Hs Hcoh H).
+Qed.
+Print Assumptions C09_expand_spec_skip_preserves_meaning.
+
+Theorem C09_schema_walk_leaves_the_state : forall E docs cwd OP ctx_base live,
+  o_skip OP = true ->
+  forall G : string -> json -> Prop,
+  (forall b m k v x, G b (JObj m) -> has_ref m = false -> In (k, v) m -> child_of x v -> G b x) ->
+  (forall b m, G b (JObj m) -> get_str "id" m = "" /\ assoc "$ref" m <> Some (JStr "")) ->
+  forall follow j s parents rroot base s' j',
+  G base j -> walk E docs cwd OP ctx_base live follow j s parents rroot base = Done (s', j') -> s' = s.
+Proof. exact walk_skip_state. Qed.
+Print Assumptions C09_schema_walk_leaves_the_state.
+
+(* non-vacuity: the two-document specification of ExpandExample.v in skip mode *)
+Example C09_spec_example :
+  exists s' out, expand_spec gen_env sp_docs "/" (mkOpts true false false) sp_root_url sp_live 12 sp_root_url (JObj sp_members) ex_s0 = Done (s', out)
+    /\ spec_rel_skip gen_env sp_docs "/" sp_root_url (fun b t t' => bisimilar gen_env sp_docs "/" b t sp_root_url t') sp_members out.
+Proof.
+  set (OP := mkOpts true false false).
+  assert (Hck : check_nodes gen_env sp_docs "/" OP sp_root_url "" sp_nodes = true) by (vm_compute; reflexivity).
+  assert (Hcke : check_enodes gen_env sp_docs "/" sp_enodes sp_nodes = true) by (vm_compute; reflexivity).
+  assert (Hckc : check_chains gen_env sp_docs "/" sp_nodes sp_enodes sp_bad0 sp_ranks = true) by (vm_compute; reflexivity).
+  assert (Hckp : check_pis sp_enodes = true) by (vm_compute; reflexivity).
+  assert (Hroot : check_root sp_root_url sp_nodes sp_enodes sp_bad0 sp_members = true) by (vm_compute; reflexivity).
+  assert (Hlive : forall lu ld, sp_live = Some (lu, ld) -> doc_at sp_docs "/" lu = Some ld) by (intros lu ld E; inversion E; subst; vm_compute; reflexivity).
+  assert (Hs : Inv2 gen_env sp_docs "/" "" (GN sp_nodes) sp_bad0 ex_s0).
+  { split; [split; [intros u d E; discriminate|reflexivity]|intros x Hx; destruct Hx]. }
+  assert (Hcoh : Coh "/" (Some sp_root_url) sp_root_url) by (intros ru E; inversion E; subst; reflexivity).
+  assert (Hrun : exists s' out, expand_spec gen_env sp_docs "/" OP sp_root_url sp_live 12 sp_root_url (JObj sp_members) ex_s0 = Done (s', out))
+    by (vm_compute; eexists; eexists; reflexivity).
+  destruct Hrun as [s' [out Hrun]]. exists s', out. split; [exact Hrun|].
+  exact (proj2 (C09_expand_spec_skip_preserves_meaning gen_env sp_docs "/" OP sp_root_url "" sp_nodes sp_enodes sp_bad0 sp_ranks sp_live
+                  Hlive eq_refl eq_refl Hck Hcke Hckc Hckp 12 sp_root_url sp_members ex_s0 s' out Hroot Hs Hcoh Hrun)).
+Qed.
